@@ -89,6 +89,9 @@ func updateRules(version string, year string, contents []byte) ([]byte, error) {
 			return nil, err
 		}
 	}
+	if err := scanner.Err(); err != nil {
+		return nil, err
+	}
 
 	if err := writer.Flush(); err != nil {
 		return nil, err
